@@ -326,7 +326,9 @@ def body(run, a):
     for c in configs + ['devchk-std']:
         module(c, run)
     check.parallel(run, round_lemma, [(c, r) for c in configs for r in range(42)])
-    check.parallel(run, f8_cut_proof, [('release-std', a_) for a_ in ARMS] + [(c, 'portable') for c in configs if 'nosimd' in c])
+    # (the portable build keeps every 128-bit state word as two 64-bit halves, so its f8 has no SSA values to cut at: there the 42
+    #  per-round lemmas above and C03's round-by-round agreement with the x86 arms are the claim)
+    check.parallel(run, f8_cut_proof, [('release-std', a_) for a_ in ARMS])
     lens = [0, 1, 55, 56, 63, 64, 65, 119, 120, 128, 129] if run.tier == 'quick' else list(range(0, 200))
     check.parallel(run, framing_case, [('release-std', ob_, L) for ob_ in (224, 256, 384, 512) for L in lens])
     stasks = [('release-std', ob_, p, n) for ob_ in (224, 256, 384, 512) for p in ((0, 1, 55, 56, 63) if run.tier == 'quick' else range(64)) for n in (0, 1, 64 - p, 65)]
